@@ -259,6 +259,8 @@ def check_case(case):
 
         from vk import cli
 
+        cli.use_case(case)
+
         d = tempfile.mkdtemp(prefix="vk01.")
         try:
             method = "clonal" if case["kind"] != "nonneg" else case["method"]
